@@ -95,11 +95,19 @@ func main() {
 		st := &Stats{Counters: map[string]int{}}
 		sc := bufio.NewScanner(inF)
 		sc.Buffer(make([]byte, 1<<20), 1<<30)
+		// the number of the case being exercised, kept in a small file: if the process is aborted by the runtime (a fatal
+		// error cannot be recovered), the runner names that case as the failing input
+		prog, _ := os.Create(*out + ".progress")
+		caseNo := 0
 		for sc.Scan() {
 			line := sc.Text()
 			if line == "" {
 				continue
 			}
+			if prog != nil {
+				_, _ = prog.WriteAt([]byte(fmt.Sprintf("%-12d", caseNo)), 0)
+			}
+			caseNo++
 			var obs, mi string
 			var nt bool
 			if panicked, msg := protect(func() { obs, mi, nt = p.Run(line, st) }); panicked {
